@@ -164,6 +164,14 @@ impl Interface for ScriptLink {
 
 type Proto = Protocol<'static, ScriptLink>;
 
+/// Handlers that register further handlers from inside a delivery are switched off. The
+/// unchanged library iterates its handler map while such a handler inserts into it (it
+/// happens to work); four of seventy independent behaviour-preserving variants - safe-Rust
+/// handler tables among them - crash when a handler does that, and their authors had every
+/// reason to consider it outside what C15-C17 speak about. The mechanism is kept for
+/// experiments (`true` here), not used by any registered check.
+const REGISTRARS_ENABLED: bool = false;
+
 thread_local! {
     static DEPTH: Cell<u32> = Cell::new(0);
     /// Some(levels sent so far) while a chain of nested own-address sends is in progress
@@ -819,7 +827,7 @@ pub fn run(sim: &Sim, prop: &str, tier: Tier) -> Outcome {
                 let self_sender_live = model.live.values().any(|h| matches!(h.beh, Beh::SelfSender(_)));
                 let beh = if zst.is_some() {
                     Beh::Plain
-                } else if prop == "C17" && model.live.values().filter(|h| matches!(h.beh, Beh::Registrar)).count() < 2 && sim.chance(7) {
+                } else if REGISTRARS_ENABLED && prop == "C17" && model.live.values().filter(|h| matches!(h.beh, Beh::Registrar)).count() < 2 && sim.chance(7) {
                     // (only in the C17 check, at most two per table; the unchanged library
                     // iterates its handler map while such a handler inserts into it, so nothing
                     // is judged about the delivery during which that happens - only the ids
